@@ -51,7 +51,7 @@ SNIPPETS = [
 ]
 
 
-def mutate(rng, data, nops=None, utf8_only=False):
+def mutate(rng, data, nops=None, utf8_only=False, no_repeat=False):
     """Stored-byte corruption. Returns (bytes, [op names])."""
     b = bytearray(data)
     ops = []
@@ -61,6 +61,8 @@ def mutate(rng, data, nops=None, utf8_only=False):
         op = rng.choice(["bitflip", "truncate", "randrange", "multibyte", "multibyte_before_bang", "dup", "snippet", "snippet",
                          "crlf", "delete", "multibyte_in_macro_line", "bad_utf8_tail", "bad_utf8_mid", "repeat_token"])
         if utf8_only and op in ("bitflip", "randrange", "bad_utf8_tail", "bad_utf8_mid"):
+            op = "snippet"
+        if no_repeat and op == "repeat_token":
             op = "snippet"
         ops.append(op)
         if op == "bitflip":
@@ -73,11 +75,14 @@ def mutate(rng, data, nops=None, utf8_only=False):
             tok = rng.choice(['/*', '"dir/*", ', '(', '!(', 'info!(', '"', '\\', '//', 'r#"', '{', '[ref: ', '/* */', '*/', 'a::', '"a" ',
                               'info!(k = ', '/*/', 'é'])
             n = rng.choice([30, 60, 120, 300, 1000])
+            # an unclosed opener makes the grammar scan the rest of the file once per copy: keep copies x file size small
+            n = max(25, min(n, 20000000 // (len(b) + 1)))
             # very long runs only of tokens that are not identifier characters: the grammar retries its macro-name rule at
             # every character of an identifier-like run, so a 100 000-character "identifier" costs quadratic time - a
             # pathological shape, not a hang (DESIGN 12.7)
-            if tok in ('/*', '(', '"', '{', '//', '\\') and rng.random() < 0.15:
-                n = 100000
+            # No longer runs than that: wherever a grammar rule can scan far ahead and then fail (an identifier-like run, a
+            # "//" comment without a final newline, ...) a run of n such characters costs n^2 steps - slow on pathological
+            # shapes, neither a hang nor "ordinary shape" (DESIGN 12.7, Corrections 1 and 15).
             i = _boundary(b, rng.randrange(len(b) + 1))
             ins = (tok * n).encode("utf-8")
             if tok == '/*' and rng.random() < 0.5:
